@@ -80,9 +80,23 @@ package pomsg
 //@   props C11
 //@   nosafety
 //@   modifies *
+//@   ghost gu bool = true
+//@   at call pomsg.untranslated#0 assert[translation-state-of-this-entry;C11] sameslice(arg0, msg.Str)
+//@   at call pomsg.untranslated#0 after set gu = res
+//@   at call pomsg.newMessage#0 assert[only-translated-entries-become-messages;C11] !gu
 //@   at call pomsg.newMessage#0 assert[message-built-from-this-entry's-id-variable-and-msgstrs;C11] arg0 == id && same(arg1, varName)
 //@   at call mapupdate#0 assert[stored-under-this-entry's-id;C11] key == id
 //@   loop 0
 //@     noterm
 //@   loop 1
 //@     invariant[id-and-variable-start-empty-for-each-entry;C11] rangeindex == -1 ==> id == 0 && len(varName) == 0
+
+// an entry is untranslated exactly when every one of its msgstrs is empty
+// (gettext's convention): such an entry is left out of the catalogue, so the
+// message falls back to its source text.
+//@ func untranslated
+//@   props C11
+//@   pure
+//@   ensures[untranslated-means-every-msgstr-is-empty;C11] result == forall(k, 0, len(msgstrs), len(msgstrs[k]) == 0)
+//@   loop 0
+//@     invariant forall(k, 0, rangeindex + 1, len(msgstrs[k]) == 0)
